@@ -228,7 +228,9 @@ func Table() map[string]*Property {
 		Groups: []Group{
 			{Layer: "D", Pkg: "derive", Funcs: []string{"derive.typesMap.isGenerated", "derive.typesMap.ToGenerate", "derive.typesMap.Done", "derive.typesMap.Generating", "derive.pkg.Done", "derive.pkg.Generate",
 				// the name table every lookup goes through: a call resolves to the function registered for exactly its (assignable) type list
-				"derive.eq", "derive.typesMap.nameOf", "derive.typesMap.newName", "derive.typesMap.SetFuncName", "derive.typesMap.GetFuncName"}},
+				"derive.eq", "derive.typesMap.nameOf", "derive.typesMap.newName", "derive.typesMap.SetFuncName", "derive.typesMap.GetFuncName",
+				// the import alias closure: the alias a plugin prints is bound to the path it asked for
+				"derive.printer.NewImport_lit1"}},
 			{Layer: "O", NoVC: true, Funcs: c01, Only: textLevel},
 		},
 		Assumptions: []string{
@@ -247,7 +249,7 @@ func Table() map[string]*Property {
 			{Layer: "D", Pkg: "derive", Ghost: fsGhost, Funcs: []string{"derive.finder.Visit", "derive.getInputTypes", "derive.newCall", "derive.newFileInfos"}}},
 		Assumptions: []string{
 			"PARTIAL. Decided: on every path of every plugin's Add (33 plugins, argument lists of 0..3 types of every kind, incl. tuple types) and of the generator functions listed, the generator code does not panic (index, type assertion, nil, Tuple.At), an error created on the path reaches the function's result (G2), callee preconditions hold (G1), indentation is balanced (G3), and on every non-error path the emitted text parses (G4), keeps its operand holes intact and type-checks under the prelude synthesised from the path condition",
-			"NOT decided here: termination / hangs; the content of the messages; derive/load.go and flag handling in main.go (go/packages); of derive/find.go only newFileInfos, finder.Visit, newCall and getInputTypes are under contract (no panic, given that go/types stores no nil object in Info.Uses and the loader no nil file); pkg.Generate's 'Generator Error' wrapping (Layer D covers generate.go's file effects under C07/C10 only); Generate of clone, deepcopy, gostring, do, dup, pipeline, curry, flip, uncurry, toerror (their inner generator functions are under contract where listed)",
+			"NOT decided here: termination / hangs; the content of the messages; derive/load.go and flag handling in main.go (go/packages); of derive/find.go only newFileInfos, finder.Visit, newCall and getInputTypes are under contract (no panic, given that go/types stores no nil object in Info.Uses and the loader no nil file); pkg.Generate's 'Generator Error' wrapping (Layer D covers generate.go's file effects under C07/C10 only); Generate of gostring and do; for clone, deepcopy, dup, pipeline, curry, flip, uncurry, toerror, fmap, join, equal, compare, hash, tuple, traverse, mem the inner emitting functions are explored themselves with the domain their contracts state (e.g. three channels for join's variant form), not only through the Generate dispatch",
 			"that Generate is only called with type lists its Add accepted or another plugin requested through GetFuncName is an assumption",
 			"A-cfg, A-param; arities enumerated up to 3",
 		},
